@@ -20,6 +20,8 @@ VERIF_CLASSES = [
     (r'^postcondition not satisfied', 'ensures'),
     (r'^unable to prove post-condition of closure', 'ensures'),
     (r'^unable to prove pre-condition of closure', 'requires'),
+    (r'^precondition not met: index in bounds', 'bounds'),       # slice / array indexing
+    (r'^precondition not met', 'requires'),
     (r'^precondition not satisfied', 'requires'),
     (r'^invariant not satisfied', 'invariant'),
     (r'^loop invariant not satisfied', 'invariant'),
@@ -229,6 +231,7 @@ def run_unit(unit, variant=None, scratch=None, rlimit=None, keep=False, extra_ar
         site_text = ' '.join(t.get('text', '')[t.get('highlight_start', 1) - 1:t.get('highlight_end', 1) - 1] for t in site.get('text', [])[:2])
         label = None
         props = None
+        extra_props = []
         clause_text = None
         if clause is not None:
             c_in_unit = os.path.basename(clause.get('file_name', '')) == fname
@@ -238,6 +241,15 @@ def run_unit(unit, variant=None, scratch=None, rlimit=None, keep=False, extra_ar
                 if co.get('label'):
                     label = co['label']
                     props = co.get('label_props')
+                elif kind == 'requires':
+                    # an unlabelled precondition of a callee in this unit: the failure at the call site also concerns
+                    # the properties the callee's contract serves
+                    callee_props = co.get('serves')
+                    if not callee_props and co.get('item'):
+                        for it in gen.items:
+                            if it['short'] == co.get('item') and it.get('serves'):
+                                callee_props = it['serves']
+                    extra_props = list(callee_props or [])
             else:
                 # a vstd precondition
                 if kind == 'requires':
@@ -270,6 +282,9 @@ def run_unit(unit, variant=None, scratch=None, rlimit=None, keep=False, extra_ar
             if props is None:
                 props = list(gen.serves)
         props = list(props)
+        for ep in extra_props:
+            if ep not in props:
+                props.append(ep)
         if kind in AUTO_C05 and 'C05' not in props:
             props.append('C05')
         ob = '%s/%s#%s:%s' % (unit, fn_name, kind, label)
